@@ -787,5 +787,5 @@ func csvSoleWriter(c *Ctx) {
 		c.check(bad == token.NoPos, "csv-writer:sole:"+fnKey(fn), posOr(bad, fn.Pos()), "in CSV/TSV output mode every way out passes the CSV writer function",
 			fnKey(fn)+" has a way out of its CSV/TSV branch that does not pass writeCSV: the record text is produced by other means there, without the writer's quoting rules and without the \"\" it writes for a record made of one empty field - such a record is rebuilt or printed as an empty line, which the CSV reader skips, so it is not read back")
 	}
-	c.atLeast("functions that hand CSV/TSV-mode output to the CSV writer", n, 2)
+	c.atLeast("functions that hand CSV/TSV-mode output to the CSV writer", n, 1)
 }
